@@ -19,7 +19,7 @@ func init() {
 		Level: "other",
 		Explanation: "Soundness of a definite TryEval answer rests on three gates that are visible in the code, and these are decided: (R-PROXYGATE) in TryEval's own code (its static-call closure) every dynamic Operator call other than the cond arm's is the one inside executeOperatorProxy, and that call executes only on the false edge of contains(params, DNE): an operator never sees an unavailable operand (otherwise `(= x 1)` with x unavailable would answer a definite false); the operator's result and error are returned unchanged; " +
 			"(R-SHORTCUT) executeOperatorProxy returns constant false only under isAndOpNode(n) && contains(params,false), constant true only under isOrOpNode(n) && contains(params,true), DNE only under contains(params,DNE); (R-CACHEDGATE) every VariableFetcher.Get in that closure executes only on the true edge of Cached on the same fetcher with the same (varKey,strKey) of one node, and the other edge returns (DNE, nil); " +
-			"(R-PAIR) the polarity tables agree: matchesShortCircuit (andOp: res==false, orOp: res==true, else res==DNE), calAndSetShortCircuitForRCO (and-parent: andOp, or-parent: orOp), calAndSetShortCircuit (and-parent: scIfFalse, or-parent: scIfTrue), and the flag bit groups are disjoint (R-BITS). (R-STEPRES / R-STEPARGS on TryEval) per arm the pushed value is exactly the node literal / fetchVariableValueProxy(ctx, curt)#0 / executeOperatorProxy(ctx, curt, operands)#0 applied in that arm; the operand vector is built exactly as in Eval (sibling agreement); fast-arm slot k is getNodeValueProxy(ctx, nodes[i+1+k])#0 and nothing else. (R-CACHEDGET) for every fetcher of the package, Cached == true excludes every error condition of Get: a variable reported as available can be fetched. NOT decided: the climbing loop (matchesShortCircuit/parentNode/stack reset), i.e. that a decided value is attributed to the right ancestor. (R-CONTAINS) contains(list, x), which the proxy decides with, is true only under list[i] == x and false only after the whole list.",
+			"(R-PAIR) the polarity tables agree: matchesShortCircuit (andOp: res==false, orOp: res==true, else res==DNE), calAndSetShortCircuitForRCO (and-parent: andOp, or-parent: orOp), calAndSetShortCircuit (and-parent: scIfFalse, or-parent: scIfTrue), and the flag bit groups are disjoint (R-BITS). (R-STEPRES / R-STEPARGS on TryEval) per arm the pushed value is exactly the node literal / fetchVariableValueProxy(ctx, curt)#0 / executeOperatorProxy(ctx, curt, operands)#0 applied in that arm; the operand vector is built exactly as in Eval (sibling agreement); fast-arm slot k is getNodeValueProxy(ctx, nodes[i+1+k])#0 and nothing else. (R-CACHEDGET) for every fetcher of the package, Cached == true excludes every error condition of Get: a variable reported as available can be fetched. (R-TRYSCMUST) a step result is pushed only over an edge on which matchesShortCircuit(result, node) was false — the exit of the climbing loop or the escape out of an if-condition — so a propagating result always climbs: otherwise `(and false (/ 1 0))` fails in TryEval and is false in Eval, and an unavailable if-condition reaches the if/fi closure. NOT decided: how far the climbing loop goes (parentNode/stack reset), i.e. that a decided value is attributed to the right ancestor. (R-CONTAINS) contains(list, x), which the proxy decides with, is true only under list[i] == x and false only after the whole list.",
 		Run:       runC04,
 		Witnesses: c04Witnesses,
 	})
@@ -570,6 +570,7 @@ func runC04(w *World, r *Report) {
 	ruleCachedGet(w, r)
 	ruleFastProxy(w, r)
 	ruleContains(w, r)
+	ruleTryScMust(w, r)
 }
 
 // ---- C05 ----------------------------------------------------------------------
@@ -587,6 +588,7 @@ func runC05(w *World, r *Report) {
 	rulePairBool(w, r)
 	ruleStepArgs(w, r, ruleStepRes(w, r, "(*Expr).TryEval"))
 	ruleCachedGet(w, r)
+	ruleTryScMust(w, r)
 }
 
 func ruleDneBool(w *World, r *Report) {
@@ -771,7 +773,7 @@ func ruleFastProxy(w *World, r *Report) {
 
 var _ = types.Typ
 
-var c04Witnesses = append(stepWitnessesTry, []Witness{
+var c04Witnesses = append(append(stepWitnessesTry, tryScMustWitnesses...), []Witness{
 	{Name: "contains-scan-leaves-after-eight", Rule: "R-CONTAINS", Edits: []Edit{
 		{File: "util.go", Old: "	for _, v := range params {\n		if v == target {\n			return true\n		}\n	}\n	return false\n}", New: "	for i, v := range params {\n		if i > 7 {\n			break\n		}\n		if v == target {\n			return true\n		}\n	}\n	return false\n}"}}},
 	{Name: "contains-true-for-nil-element", Rule: "R-CONTAINS", Edits: []Edit{
